@@ -87,6 +87,9 @@ class FullEngine(Engine):
                 ft = obj.t.ftype(e.attr)
                 if isinstance(ft, (TList, TDict, TObj)): return PRef(ft, obj.root, obj.path + (e.attr,))
                 return PV(ft, obj.t.get(self.term(st, obj), e.attr))
+        ol = self.as_list(obj)
+        if isinstance(ol, PRef) and isinstance(ol.t, TList) and e.attr == 'shape':      # numpy 1-d array modelled as a list: shape == (len,)
+            return PTup([PV(INT, ol.t.th().Len(self.term(st, ol)))])
         raise Unsupported('attribute ' + ast.unparse(e))
 
     def num(self, st, v, t):
